@@ -44,7 +44,7 @@ from vf import env as venv
 from vf.core import Case, Ob
 from vf.fpx import FCase, FOb, FInputs
 from vf.sym import S, SI
-from vf.tsym import st, Opaque, exact_floats, congruence_axioms
+from vf.tsym import st, Opaque, exact_floats, congruence_axioms, guard_library_exceptions
 
 from checks import c13 as _c13
 
@@ -212,6 +212,7 @@ class Propagators(_Base):
         self.id = "H1/TimeDependentSystem/%s" % branch
         self.bounds = {"steps": self.N, "d": 2, "subdiv_limit": None if branch == "sample" else 64}
 
+    @guard_library_exceptions
     def run(self, inp):
         start, tau, dt = self.times(inp)
         u = _User(inp)
@@ -243,6 +244,7 @@ class FieldPropagators(_Base):
         self.id = "H1/TimeDependentSystemWithField/%s" % branch
         self.bounds = {"steps": self.N, "d": 2, "subdiv_limit": None if branch == "sample" else 64}
 
+    @guard_library_exceptions
     def run(self, inp):
         start, tau, dt = self.times(inp)
         u = _User(inp)
@@ -277,6 +279,7 @@ class ComputeDynamics(_Base):
         self.id = "H1/compute_dynamics" + ("" if self.dt == Fraction(1, 4) else "/dt=%s" % self.dt)
         self.bounds = {"steps": self.N, "d": 2, "float-time controls": 2, "dt": str(self.dt)}
 
+    @guard_library_exceptions
     def run(self, inp):
         start, tau, dt = self.times(inp)
         u = _User(inp)
@@ -323,6 +326,7 @@ class ComputeDynamicsWithField(_Base):
         self.id = "H1/compute_dynamics_with_field"
         self.bounds = {"steps": self.N, "d": 2}
 
+    @guard_library_exceptions
     def run(self, inp):
         start, tau, dt = self.times(inp)
         u = _User(inp)
@@ -374,6 +378,7 @@ class Correlations(_Base):
         e["extra"]["oqupy.system_dynamics.isinstance"] = _conc_isinstance
         return e
 
+    @guard_library_exceptions
     def run(self, inp):
         start, tau, dt = self.times(inp)
         u = _User(inp)
@@ -441,6 +446,7 @@ class MeanFieldTempoField(_Base):
         self.id = "H1/MeanFieldTempo.field"
         self.bounds = {"steps": 3}
 
+    @guard_library_exceptions
     def run(self, inp):
         start, tau, dt = self.times(inp)
         f = Opaque("eom", lambda t, r, a: (0.1 + 0.25 * t) * r - 0.5 * a + 0.125 * t * t, cplx=True)
@@ -500,6 +506,7 @@ class TempoLayer(_Base):
         self.functions = ("oqupy/tempo.py:%s.__init__" % kind, "%s._prepare_backend" % kind, "%s.compute" % kind, "%s._time" % kind,
                           "TempoParameters.__init__")
 
+    @guard_library_exceptions
     def run(self, inp):
         start, tau, dt = self.times(inp)
         th = inp.real("th", lo=0, hi=Fraction(3, 4))
@@ -549,6 +556,7 @@ class PtTebdTimes(_Base):
         e["extra"].update(self.env_extra)
         return e
 
+    @guard_library_exceptions
     def run(self, inp):
         start, tau, dt = self.times(inp)
         s0 = int(inp.int("s0", 0, 2))
@@ -589,6 +597,7 @@ class ControlTimes(_Base):
         self.id = "H1/Control.get_controls/pre%d_N%d" % (npre, N) + ("" if self.dt == Fraction(1, 4) else "/dt=%s" % self.dt)
         self.bounds = {"steps": [0, N], "float-time controls": "%d pre + 1 post" % npre, "dt": str(self.dt)}
 
+    @guard_library_exceptions
     def run(self, inp):
         start, tau, dt = self.times(inp)
         n = self.npre + 1
@@ -634,6 +643,7 @@ class ParseTimes(_Base):
         except IndexError:
             return "IndexError"
 
+    @guard_library_exceptions
     def run(self, inp):
         start, tau, dt = self.times(inp)
         t1 = self.tpoint(inp, "t1")
